@@ -354,6 +354,41 @@ func (g *gen) pickId(present []int, absentPct int) int {
 	return present[g.r.Intn(len(present))]
 }
 
+// burst: many tasks with distinct ids (100+), removed by id in a random order.
+func (g *gen) burst() Input {
+	var ops []Op
+	n := 64 + g.r.Intn(67)
+	started := g.r.Chance(50)
+	if started {
+		ops = append(ops, Op{Kind: "Start"})
+	}
+	ids := make([]int, 0, n)
+	for i := 0; i < n; i++ {
+		t := Task{Id: 100 + i, Uniq: 1000 + i}
+		ids = append(ids, t.Id)
+		if g.r.Chance(85) {
+			ops = append(ops, Op{Kind: "AddLast", T: &t})
+		} else {
+			ops = append(ops, Op{Kind: "AddFirst", T: &t})
+		}
+	}
+	// shuffle
+	for i := len(ids) - 1; i > 0; i-- {
+		j := g.r.Intn(i + 1)
+		ids[i], ids[j] = ids[j], ids[i]
+	}
+	keep := 1 + g.r.Intn(6)
+	for _, id := range ids[:len(ids)-keep] {
+		if started && g.r.Chance(15) {
+			ops = append(ops, Op{Kind: "Return", St: "Success"})
+		}
+		ops = append(ops, Op{Kind: "Remove", Id: id})
+	}
+	t := Task{Id: 1, Uniq: 5000}
+	ops = append(ops, Op{Kind: "AddLast", T: &t}, Op{Kind: "RemoveLast"}, Op{Kind: "Filter", Keep: []int{ids[len(ids)-1]}})
+	return Input{Ops: ops}
+}
+
 func (g *gen) tasks(n int, nextId *int, dupPct int, present []int) []Task {
 	var ts []Task
 	for i := 0; i < n; i++ {
@@ -556,6 +591,19 @@ func Gen(r *core.Rng, tier string) ([]core.In[Input], bool) {
 			ins = append(ins, core.In[Input]{Input: g.sequence(n, 0, 12), Stream: "random"})
 		}
 	}
+	// bursts: the queue grows to 64-130 tasks (the backing array is reallocated several times),
+	// then drains by id in random order, with the worker handling tasks on the way: sizes no
+	// short sequence reaches
+	nBurst := 4
+	if tier == "thorough" {
+		nBurst = 60
+	}
+	if tier == "search" {
+		nBurst = 20
+	}
+	for i := 0; i < nBurst; i++ {
+		ins = append(ins, core.In[Input]{Input: g.burst(), Stream: "burst"})
+	}
 	exhaustive := false
 	if tier == "thorough" || tier == "search" {
 		// exhaustive: Start followed by every sequence of 1..3 operations of the alphabet
@@ -581,6 +629,6 @@ func Gen(r *core.Rng, tier string) ([]core.In[Input], bool) {
 
 var Driver = core.Driver[Input, Observation]{
 	Spec: core.Spec{Property: "C05", Imports: []string{"C05_Model", "C05_Spec", "C05_Corr"}, Corr: "C05_Corr", Triggers: []string{"F14"}, ShrinkKey: "ops",
-		Rule: "op sequences on a fresh TaskQueue (public API + started worker with a scripted handler); streams: corpus, random (fresh ids, 12% arbitrary anchors), trigger (40% reused ids), exhaustive (thorough: Start + all sequences of <=3 ops over a 19-op alphabet); 40% of the Filter operations have another goroutine issue an add/remove while the callback runs (FilterDuring: atomicity of the operations); non-trivial = >=3 ops of >=2 kinds with a non-empty queue at some point; distinct = distinct op sequence text"},
+		Rule: "op sequences on a fresh TaskQueue (public API + started worker with a scripted handler); streams: corpus, burst (64-130 tasks queued, then removed by id in random order), random (fresh ids, 12% arbitrary anchors), trigger (40% reused ids), exhaustive (thorough: Start + all sequences of <=3 ops over a 19-op alphabet); 40% of the Filter operations have another goroutine issue an add/remove while the callback runs (FilterDuring: atomicity of the operations); non-trivial = >=3 ops of >=2 kinds with a non-empty queue at some point; distinct = distinct op sequence text"},
 	Gen: Gen, Run: Run, Render: Render, PerShard: 1000, Workers: 8, CaseTimout: 8 * time.Second,
 }
